@@ -1437,7 +1437,10 @@ class Interp:
                 if not isinstance(repl, str):
                     fn = repl
                     repl = lambda m, fn=fn: self._as_str(self.call(fn, [m], {}, node), node)
-                return _re.compile(base.pattern, base.flags).sub(repl, args[1])
+                try:
+                    return _re.compile(base.pattern, base.flags).sub(repl, args[1])
+                except (_re.error, IndexError) as exc:  # a replacement template the regex engine rejects (bad escape, missing group)
+                    raise Raised("error", (str(exc),), node, ("error", "Exception", "BaseException")) from None
             if attr in ("search", "match", "fullmatch", "finditer", "findall", "split") and args and all(isinstance(a, str | int) for a in args):
                 # folding a constant pattern over a constant string
                 r = getattr(_re.compile(base.pattern, base.flags), attr)(*args)
@@ -1935,6 +1938,19 @@ class NodeVal:
         self.text = text
         self.parse = parse
         self.site = site
+        self.parent_node = None
+        for c in self.children:
+            if isinstance(c, NodeVal):
+                c.parent_node = self
+
+    def adopt(self, child):
+        """DOM semantics: a node has ONE parent; inserting it somewhere else removes it from where it was."""
+        if isinstance(child, NodeVal):
+            old = child.parent_node
+            if old is not None:
+                old.children = [c for c in old.children if c is not child]
+            child.parent_node = self
+        return child
 
     def __repr__(self):
         a = " ".join(f'{k}="{v}"' for k, v in self.attrs.items())
@@ -1947,10 +1963,12 @@ class NodeVal:
             self.attrs[args[0] if not isinstance(args[0], SymStr) else args[0].text()] = args[1]
             return None
         if attr == "appendChild":
+            self.adopt(args[0])
             self.children.append(args[0])
             return args[0]
         if attr == "insertBefore":
             ref = args[1]
+            self.adopt(args[0])
             for i, c in enumerate(self.children):
                 if c is ref:
                     self.children.insert(i, args[0])
